@@ -131,21 +131,44 @@ def scan_sources(module):
     return bad
 
 
+def prop_modules(pid):
+    """SltVerif.Props.<pid> and its continuation files SltVerif.Props.<pid>b, c, …"""
+    d = os.path.join(LEAN, "SltVerif", "Props")
+    return sorted("SltVerif.Props." + f[:-5] for f in os.listdir(d)
+                  if re.fullmatch(re.escape(pid) + r"[a-z]?\.lean", f))
+
+
 def theorems_of(pid):
-    """Full names of every theorem stated in SltVerif/Props/<pid>.lean (namespace Slt.<pid>)."""
-    path = os.path.join(LEAN, "SltVerif", "Props", f"{pid}.lean")
-    src = strip_comments(open(path).read())
-    ns = re.search(r"^namespace\s+(\S+)", src, re.M).group(1)
-    names = re.findall(r"^\s*(?:private\s+)?theorem\s+([^\s:({\[]+)", src, re.M)
-    return [f"{ns}.{n}" for n in names]
+    """Full names of every theorem stated in SltVerif/Props/<pid>[a-z]?.lean."""
+    res = []
+    for m in prop_modules(pid):
+        path = os.path.join(LEAN, *m.split(".")) + ".lean"
+        src = strip_comments(open(path).read())
+        # a file may open several namespaces: track them line by line
+        ns = []
+        for line in src.split("\n"):
+            mm = re.match(r"^namespace\s+(\S+)", line)
+            if mm:
+                ns.append(mm.group(1))
+                continue
+            mm = re.match(r"^end\s+(\S+)", line)
+            if mm and ns and ns[-1] == mm.group(1):
+                ns.pop()
+                continue
+            mm = re.match(r"^\s*(?:private\s+)?(?:protected\s+)?theorem\s+([^\s:({\[]+)", line)
+            if mm:
+                name = mm.group(1)
+                res.append(name[len("_root_."):] if name.startswith("_root_.") else ".".join(ns + [name]))
+    return res
 
 
 def prove(pid, thorough):
     """Returns (obligations, discharged, failures[list of str])."""
     failures = []
-    module = f"SltVerif.Props.{pid}"
+    modules = prop_modules(pid)
+    module = " ".join(modules)
     with Lock(".lake.lock"):
-        p = sh(["lake", "build", module, "sltmodel"], cwd=LEAN, check=False)
+        p = sh(["lake", "build"] + modules + ["sltmodel"], cwd=LEAN, check=False)
     obligations = 0
     discharged = 0
     obligations += 1
@@ -154,7 +177,7 @@ def prove(pid, thorough):
         return obligations, discharged, failures, []
     discharged += 1
     obligations += 1
-    bad = scan_sources(module)
+    bad = [b for m in modules for b in scan_sources(m)]
     if bad:
         failures.append("forbidden constructs in Lean sources:\n" + "\n".join(bad))
     else:
@@ -163,7 +186,8 @@ def prove(pid, thorough):
     os.makedirs(os.path.join(OUT, pid), exist_ok=True)
     audit = os.path.join(OUT, pid, f"Audit_{pid}.lean")
     with open(audit, "w") as f:
-        f.write(f"import {module}\n")
+        for m in modules:
+            f.write(f"import {m}\n")
         for t in thms:
             f.write(f"#print axioms {t}\n")
     p = sh(["lake", "env", "lean", audit], cwd=LEAN, check=False)
@@ -183,7 +207,7 @@ def prove(pid, thorough):
             discharged += 1
     if thorough:
         obligations += 1
-        p = sh(["lake", "env", "leanchecker", module], cwd=LEAN, check=False, timeout=3600)
+        p = sh(["lake", "env", "leanchecker"] + modules, cwd=LEAN, check=False, timeout=3600)
         if p.returncode != 0:
             failures.append(f"leanchecker {module} failed:\n{p.stdout[-2000:]}")
         else:
@@ -465,8 +489,8 @@ def run_check(pid, tier, seed):
         "property_id": pid, "tier": tier, "seed": seed, "level": "proof",
         "coverage": {
             "obligations": obligations, "discharged": discharged,
-            "checker_cmd": f"cd lean && lake build SltVerif.Props.{pid} && lake env lean <#print axioms of every theorem>"
-                           + (" && lake env leanchecker SltVerif.Props." + pid if tier == "thorough" else ""),
+            "checker_cmd": f"cd lean && lake build {' '.join(prop_modules(pid))} && lake env lean <#print axioms of every theorem>"
+                           + (" && lake env leanchecker " + " ".join(prop_modules(pid)) if tier == "thorough" else ""),
             "theorems": thms,
             "trusted_base": PROPS.TRUSTED_BASE + spec.get("trusted", []),
             "evaluations": stats["evaluations"],
@@ -530,8 +554,8 @@ def replay(pid, path):
 
 
 def setup():
-    mods = [f"SltVerif.Props.{pid}" for pid in sorted(PROPS.PROPS)
-            if os.path.exists(os.path.join(LEAN, "SltVerif", "Props", f"{pid}.lean"))]
+    mods = [m for pid in sorted(PROPS.PROPS)
+            if os.path.exists(os.path.join(LEAN, "SltVerif", "Props", f"{pid}.lean")) for m in prop_modules(pid)]
     with Lock(".lake.lock"):
         sh(["lake", "build", "SltVerif", "sltmodel"] + mods, cwd=LEAN, timeout=7200)
     err = build_harness() or build_cli()
